@@ -12,6 +12,7 @@ import (
 	"sort"
 	"strings"
 	"sync"
+	"sync/atomic"
 	"time"
 
 	"verif/vf"
@@ -21,15 +22,36 @@ import (
 
 type c15Worker struct {
 	cmd      *exec.Cmd
-	in       *bufio.Writer
 	inc      io.WriteCloser
+	q        chan []byte // lines for the worker's stdin; written by its own goroutine so that nobody blocks holding a lock
 	mu       sync.Mutex
 	inflight map[int]bool
 	current  int
 	lastMove time.Time
 	stderr   bytes.Buffer
-	done     chan struct{}
-	dead     bool
+	done     chan struct{} // the process has exited and its output has been read
+	dead     atomic.Bool
+}
+
+// write feeds the worker's stdin from its queue.
+func (w *c15Worker) write() {
+	bw := bufio.NewWriterSize(w.inc, 1<<16)
+	for msg := range w.q {
+		if w.dead.Load() {
+			continue
+		}
+		if _, err := bw.Write(msg); err != nil {
+			w.dead.Store(true)
+			continue
+		}
+		if len(w.q) == 0 {
+			if err := bw.Flush(); err != nil {
+				w.dead.Store(true)
+			}
+		}
+	}
+	_ = bw.Flush()
+	_ = w.inc.Close()
 }
 
 type c15Farm struct {
@@ -45,6 +67,8 @@ type c15Farm struct {
 	steps      int64
 	diverged   int64
 	probe      chan c15Variant
+	dropped    int64
+	stopped    bool
 	divSamples []string
 	problems   map[string]int
 	actions    map[string]int64
@@ -62,7 +86,7 @@ func newC15Farm(c *vf.Ctx, n int) (*c15Farm, error) {
 		actions: map[string]int64{}, routes: map[string]int64{}, anoms: map[string]int64{},
 		sigCount: map[string]int{}, sigBest: map[string]map[string]any{}, sigLen: map[string]int{}, byTag: map[string]int64{}, sampled: map[string]bool{}}
 	for i := 0; i < n; i++ {
-		w := &c15Worker{inflight: map[int]bool{}, done: make(chan struct{}), lastMove: time.Now(), current: -1}
+		w := &c15Worker{inflight: map[int]bool{}, done: make(chan struct{}), lastMove: time.Now(), current: -1, q: make(chan []byte, 256)}
 		w.cmd = exec.Command(os.Args[0], "sub", "c15replay")
 		w.cmd.Env = append(os.Environ(), "GOMAXPROCS=2")
 		inc, err := w.cmd.StdinPipe()
@@ -70,7 +94,6 @@ func newC15Farm(c *vf.Ctx, n int) (*c15Farm, error) {
 			return nil, err
 		}
 		w.inc = inc
-		w.in = bufio.NewWriterSize(inc, 1<<16)
 		out, err := w.cmd.StdoutPipe()
 		if err != nil {
 			return nil, err
@@ -81,7 +104,9 @@ func newC15Farm(c *vf.Ctx, n int) (*c15Farm, error) {
 		}
 		f.workers = append(f.workers, w)
 		go f.read(w, out)
+		go w.write()
 	}
+	go f.watchdog()
 	return f, nil
 }
 
@@ -138,17 +163,53 @@ func (f *c15Farm) submit(tag string, rec []byte) {
 	f.tag[i] = tag
 	f.mu.Unlock()
 	w := f.workers[i%len(f.workers)]
-	w.mu.Lock()
-	defer w.mu.Unlock()
-	if w.dead {
+	if w.dead.Load() {
+		f.mu.Lock()
+		f.dropped++
+		f.mu.Unlock()
 		return
 	}
+	msg := make([]byte, 0, len(cp)+32)
+	msg = append(msg, fmt.Sprintf(`{"i":%d,"b":`, i)...)
+	msg = append(msg, cp...)
+	msg = append(msg, "}\n"...)
+	w.mu.Lock()
+	if len(w.inflight) == 0 {
+		w.lastMove = time.Now()
+	}
 	w.inflight[i] = true
-	fmt.Fprintf(w.in, `{"i":%d,"b":`, i)
-	w.in.Write(cp)
-	w.in.WriteString("}\n")
-	if len(w.inflight) < 4 {
-		w.in.Flush()
+	w.mu.Unlock()
+	w.q <- msg
+}
+
+// watchdog kills a worker that has work and does not move (a replay that hangs in the real pool).
+func (f *c15Farm) watchdog() {
+	for {
+		time.Sleep(time.Second)
+		f.mu.Lock()
+		stop := f.stopped
+		f.mu.Unlock()
+		if stop {
+			return
+		}
+		for _, w := range f.workers {
+			w.mu.Lock()
+			n, idle, cur := len(w.inflight), time.Since(w.lastMove), w.current
+			w.mu.Unlock()
+			if n > 0 && idle > 90*time.Second && !w.dead.Load() {
+				select {
+				case <-w.done:
+					continue // exited: handled in drain
+				default:
+				}
+				w.dead.Store(true)
+				_ = w.cmd.Process.Kill()
+				f.mu.Lock()
+				raw := f.raw[cur]
+				f.mu.Unlock()
+				f.c.Inconclusive("replay worker made no progress for 90 s (behaviour %s); killed", c15Short(raw))
+			}
+		}
 	}
 }
 
@@ -165,7 +226,9 @@ func (f *c15Farm) result(r *c15Result) {
 		return
 	}
 	labels := b.Labels()
-	f.c.Eval(fmt.Sprintf("%d/%d/%v:%s", b.Cap, b.Kcap, b.Exp, strings.Join(labels, ";")))
+	hk := fnv.New64a()
+	fmt.Fprintf(hk, "%d/%d/%v:%s", b.Cap, b.Kcap, b.Exp, strings.Join(labels, ";"))
+	f.c.Eval(fmt.Sprintf("%016x", hk.Sum64()))
 	f.mu.Lock()
 	defer f.mu.Unlock()
 	f.replayed++
@@ -221,56 +284,48 @@ func (f *c15Farm) result(r *c15Result) {
 	}
 }
 
-// drain waits until every submitted behaviour has been answered (bounded), then stops the workers.
+// drain waits until every submitted behaviour has been answered (or its worker is gone), then stops the workers.
 func (f *c15Farm) drain() {
 	for _, w := range f.workers {
-		w.mu.Lock()
-		w.in.Flush()
-		w.mu.Unlock()
+		close(w.q)
 	}
 	for _, w := range f.workers {
 		for {
 			w.mu.Lock()
 			n := len(w.inflight)
-			idle := time.Since(w.lastMove)
-			w.in.Flush()
 			w.mu.Unlock()
+			if n == 0 || w.dead.Load() {
+				break
+			}
 			exited := false
 			select {
 			case <-w.done:
 				exited = true
 			default:
 			}
-			if n == 0 {
-				break
-			}
 			if exited {
-				f.crashed(w)
-				break
-			}
-			if idle > 90*time.Second {
 				w.mu.Lock()
-				w.dead = true
-				cur := w.current
+				n = len(w.inflight)
 				w.mu.Unlock()
-				_ = w.cmd.Process.Kill()
-				f.mu.Lock()
-				raw := f.raw[cur]
-				f.mu.Unlock()
-				f.c.Inconclusive("replay worker made no progress for 90 s (behaviour %s); killed", c15Short(raw))
+				if n > 0 {
+					f.crashed(w)
+				}
 				break
 			}
 			time.Sleep(5 * time.Millisecond)
 		}
-		w.mu.Lock()
-		w.dead = true
-		w.mu.Unlock()
-		_ = w.inc.Close()
 		select {
 		case <-w.done:
 		case <-time.After(10 * time.Second):
 			_ = w.cmd.Process.Kill()
 		}
+	}
+	f.mu.Lock()
+	f.stopped = true
+	dropped := f.dropped
+	f.mu.Unlock()
+	if dropped > 0 {
+		f.c.Inconclusive("%d behaviours were not replayed because their worker was gone", dropped)
 	}
 }
 
@@ -365,10 +420,7 @@ func C15(c *vf.Ctx) {
 	var variant c15Variant
 	{
 		w := farm.workers[0]
-		w.mu.Lock()
-		w.in.WriteString("{\"probe\":true}\n")
-		w.in.Flush()
-		w.mu.Unlock()
+		w.q <- []byte("{\"probe\":true}\n")
 		select {
 		case variant = <-farm.probe:
 		case <-time.After(60 * time.Second):
